@@ -99,6 +99,11 @@ def run(ctx):
              "SubstAll": subst_all, "PairMax": pair_max, "NestDepths": S(nest), "Tags": S(taglist)}
         jobs.append(dict(module="MC_C13mut", name="MC_C13mut_%d" % i, view="View", constants=c, invariants=("TypeOK", "Differs", "NodesOK", "SpliceOK"),
                          workers=3, timeout=1500, heap="4g"))
+    # padded plaintexts with hostile length blocks (boundary bit lengths up to the 64-bit wrap-around): the candidates of MC_C18
+    hdr_out = os.path.join(ctx.scratch, "c13hdr.ndjson")
+    jobs.append(dict(module="MC_C18", name="MC_C18_hdr", view="View", workers=2, timeout=900, invariants=("TypeOK",),
+                     constants={"Seed": ctx.seed, "BSet": S([]), "FullLen": 0, "StrBS": S([]), "HdrBS": S([1, 7, 8, 9, 16, 17, 64, 255] if quick else range(1, 256)),
+                                "OutFile": core.tla_str(hdr_out)}))
     ctx.tlc_many(jobs, parallel=6)
     ctx.tlc_runs = [r for r in ctx.tlc_runs]
     files = [f for f in [ber_out] + mut_outs if os.path.exists(f)]
@@ -119,6 +124,7 @@ def run(ctx):
         futs = [ex.submit(ctx.replay, f, c, 10) for c, f in tasks]
         for fu in futs:
             fu.result()
+    ctx.replay_all(hdr_out, cfgs)
     merged = collections.Counter()
     for k, v in ctx.per_cfg.items():
         merged[k.split("#")[0]] += v
